@@ -39,6 +39,11 @@ ManifestParser::ManifestParser(State* state, FileReader* file_reader,
 bool ManifestParser::Parse(const string& filename, const string& input,
                            string* err) {
   lexer_.Start(filename, input);
+  filename_ = filename;
+  if (!filename_.empty()) {
+    uint64_t slash_bits;  // Unused: only used to compare file names.
+    CanonicalizePath(&filename_, &slash_bits);
+  }
 
   for (;;) {
     Lexer::Token token = lexer_.ReadToken();
@@ -426,8 +431,21 @@ bool ManifestParser::ParseFileInclude(bool new_scope, string* err) {
     return false;
   string path = eval.Evaluate(env_);
 
+  // A file that (directly or through other files) includes itself would
+  // recurse until the stack overflows.
+  string canonical_path = path;
+  if (!canonical_path.empty()) {
+    uint64_t slash_bits;  // Unused: only used to compare file names.
+    CanonicalizePath(&canonical_path, &slash_bits);
+  }
+  for (const ManifestParser* p = this; p != nullptr; p = p->parent_) {
+    if (p->filename_ == canonical_path)
+      return lexer_.Error("'" + path + "' includes itself", err);
+  }
+
   if (subparser_ == nullptr) {
     subparser_.reset(new ManifestParser(state_, file_reader_, options_));
+    subparser_->parent_ = this;
   }
   if (new_scope) {
     subparser_->env_ = new BindingEnv(env_);
